@@ -53,8 +53,12 @@ func c17Visit(v *fsVisit) {
 	if l := leakIn(v.Resp, v.Root, v.RootReal); l != "" {
 		e := davModel(v.State, v.Req, func(string) string { return "" })
 		where := strings.SplitN(l, " contains", 2)[0]
-		s.Violate(engine.Violation{Sig: fmt.Sprintf("C17/leak/%s/status=%d/%s", c01Coarse(e.Class), v.Resp.Status, strings.ReplaceAll(where, " ", "-")), Clause: "leak", Index: v.Index, Kind: "C17",
-			Case: fsCase{State: v.State, Req: v.Req}, Expected: "no host path in the response", Observed: fmt.Sprintf("status %d: %s; body=%q", v.Resp.Status, l, trunc(string(v.Resp.Body), 200))})
+		sig := fmt.Sprintf("C17/leak/%s/status=%d/%s", c01Coarse(e.Class), v.Resp.Status, strings.ReplaceAll(where, " ", "-"))
+		if v.Spell != 0 {
+			sig += "/root=" + fsRootSpellings[v.Spell]
+		}
+		s.Violate(engine.Violation{Sig: sig, Clause: "leak", Index: v.Index, Kind: "C17",
+			Case: fsCase{State: v.State, Req: v.Req, Spell: v.Spell}, Expected: "no host path in the response", Observed: fmt.Sprintf("status %d: %s; body=%q", v.Resp.Status, l, trunc(string(v.Resp.Body), 200))})
 	}
 }
 
@@ -67,7 +71,7 @@ func init() {
 		}
 		states := append(fsUniverse(contents), fsProbeStates()...)
 		reqs := fsRequests(quick)
-		r.Rule = fmt.Sprintf("part 1: every transition of the C01 universe (%d states x %d requests) and the per-state conditional / failing-body requests of C02; part 2: the hostile-path alphabet of C03; part 3: every single injected OS failure (8 errno values, wrapped as package os wraps them, real absolute paths inside) at every OS call of every request of a reduced alphabet; non-trivial = the response is an error response (>= 400), where error text is sent; distinct by (tree, request[, fault])", len(states), len(reqs))
+		r.Rule = fmt.Sprintf("part 1: every transition of the C01 universe (%d states x %d requests) and the per-state conditional / failing-body requests of C02; part 1b: a subset of those states x every request with the served root configured in 4 further spellings (trailing slash, /., //, /./); part 2: the hostile-path alphabet of C03; part 3: every single injected OS failure (8 errno values, wrapped as package os wraps them, real absolute paths inside) at every OS call of every request of a reduced alphabet; non-trivial = the response is an error response (>= 400), where error text is sent; distinct by (tree, request[, fault])", len(states), len(reqs))
 		r.Explanation = "model-free oracle over the explicit-state exploration: every header value and body of every response is scanned for the served root's absolute path in its configured (symlinked) and resolved spelling and for every >=2-segment prefix"
 		exploreFSx(r, states, reqs, c02Extra(quick), func(v *fsVisit) {
 			c17Visit(v)
@@ -75,6 +79,13 @@ func init() {
 				v.S.Sample(map[string]interface{}{"state": v.State.Canon(), "request": v.Req.String(), "status": v.Resp.Status, "body": trunc(string(v.Resp.Body), 120)})
 			}
 		})
+		// the same directory configured in other spellings (trailing slash, "/.", "//", "/./")
+		sub := fsSpellingStates(states, quick)
+		for sp := 1; sp < len(fsRootSpellings); sp++ {
+			exploreFSspell(r, sub, reqs, nil, sp, c17Visit)
+		}
+		r.Extra["root_spellings"] = fsRootSpellings
+		r.Extra["root_spelling_states"] = len(sub)
 		c03Explore(r, quick, func(v *fsVisit) { c17Visit(v) })
 		c17Faults(r, quick)
 	})
